@@ -1,7 +1,259 @@
-//! Correspondence harness of property C02 (stub).
-use mzkh::Ctx;
+//! Correspondence harness of property C02: the verifier enforces every constraint class and
+//! agrees with the mock checker.
+//!
+//! For members of the generated circuit family and for every (sampled) advice/instance cell ×
+//! fault kind, three verdicts are produced on the SAME faulted assignment:
+//!   real  = real `create_proof` + `prepare` + `verify` accepts,
+//!   mock  = `MockProver::verify()` is Ok,
+//!   model = `rowSat` evaluated by the Lean model on the dumped constraint system and table.
+//! The request line carries the dumped constraint system and assignment table; the
+//! implementation's answer line carries real and mock verdicts (and the failure classes the mock
+//! checker reports); the Lean model must reproduce the line. Oracle: real == mock.
+
+use blake2b_simd::{blake2b, State as Blake2bState};
+use ff::{Field, FromUniformBytes};
+use midnight_curves::{Bls12, Fq as F, G1Projective};
+use midnight_proofs::{
+    dev::{MockProver, VerifyFailure},
+    plonk::{commit_to_instances, create_proof, keygen_pk, keygen_vk_with_k, prepare, ProvingKey},
+    poly::{
+        commitment::Guard,
+        kzg::{params::ParamsKZG, KZGCommitmentScheme},
+    },
+    transcript::{CircuitTranscript, Transcript},
+};
+use mzkh::{
+    csdump::{cs_string, table_string},
+    family::{sample_params, FamCircuit, FamParams, FaultKind, GateKind, LookupKind},
+    Ctx,
+};
+use rand::{Rng, SeedableRng};
+use rand_chacha::ChaCha8Rng;
+use serde_json::json;
+
+type Scheme = KZGCommitmentScheme<Bls12>;
+
+fn mock_challenges(n: usize) -> Vec<F> {
+    let mut hash: [u8; 64] = blake2b(b"Halo2-MockProver").as_bytes().try_into().unwrap();
+    (0..n)
+        .map(|_| {
+            hash = blake2b(&hash).as_bytes().try_into().unwrap();
+            F::from_uniform_bytes(&hash)
+        })
+        .collect()
+}
+
+struct Member {
+    fp: FamParams,
+    k: u32,
+    params: ParamsKZG<Bls12>,
+    pk: ProvingKey<F, Scheme>,
+    cs_line: String,
+    n_challenges: usize,
+}
+
+fn setup_member(fp: &FamParams, seed: u64) -> Member {
+    let c = FamCircuit::new(fp.clone(), seed);
+    let mut k = 4;
+    loop {
+        let params = ParamsKZG::<Bls12>::unsafe_setup(k, ChaCha8Rng::seed_from_u64(k as u64 + 99));
+        match keygen_vk_with_k::<F, Scheme, _>(&params, &c, k) {
+            Ok(vk) => {
+                let pk = keygen_pk(vk, &c).unwrap();
+                let cs_line = cs_string(pk.get_vk().cs());
+                let n_challenges = pk.get_vk().cs().num_challenges();
+                return Member { fp: fp.clone(), k, params, pk, cs_line, n_challenges };
+            }
+            Err(_) if k < 10 => k += 1,
+            Err(e) => panic!("keygen failed: {e:?}"),
+        }
+    }
+}
+
+/// Real prover + verifier on (possibly faulted) circuit and instances.
+fn real_verdict(m: &Member, circuit: &FamCircuit, insts: &[Vec<F>], seed: u64) -> Result<bool, String> {
+    let nc = m.fp.n_committed;
+    let inst_refs: Vec<&[F]> = insts.iter().map(|c| &c[..]).collect();
+    let mut tr = CircuitTranscript::<Blake2bState>::init();
+    let res = mzkh::catch(|| {
+        create_proof::<F, Scheme, _, _>(
+            &m.params,
+            &m.pk,
+            &[circuit.clone()],
+            nc,
+            &[&inst_refs[..]],
+            ChaCha8Rng::seed_from_u64(seed ^ 0xbeef),
+            &mut tr,
+        )
+    });
+    match res {
+        Err(p) => return Err(format!("prover panicked: {p}")),
+        Ok(Err(_)) => return Ok(false), // the prover itself refuses (e.g. lookup input not in table)
+        Ok(Ok(())) => {}
+    }
+    let proof = tr.finalize();
+    let domain = m.pk.get_vk().get_domain();
+    let coms: Vec<G1Projective> =
+        insts[..nc].iter().map(|c| commit_to_instances::<F, Scheme>(&m.params, domain, c)).collect();
+    let plain: Vec<&[F]> = insts[nc..].iter().map(|c| &c[..]).collect();
+    let mut vt = CircuitTranscript::<Blake2bState>::init_from_bytes(&proof);
+    let v = mzkh::catch(|| {
+        let g = match prepare::<F, Scheme, _>(m.pk.get_vk(), &[&coms[..]], &[&plain[..]], &mut vt) {
+            Ok(g) => g,
+            Err(_) => return false,
+        };
+        if vt.assert_empty().is_err() {
+            return false;
+        }
+        g.verify(&m.params.verifier_params()).is_ok()
+    });
+    v.map_err(|p| format!("verifier panicked: {p}"))
+}
+
+#[allow(clippy::too_many_arguments)]
+fn one_case(
+    ctx: &mut Ctx,
+    m: &Member,
+    label: &str,
+    circuit: &FamCircuit,
+    insts: &[Vec<F>],
+    nontrivial: bool,
+    seed: u64,
+    desc: serde_json::Value,
+) {
+    let mp = match mzkh::catch(|| MockProver::run(m.k, circuit, insts.to_vec())) {
+        Ok(Ok(mp)) => mp,
+        other => {
+            ctx.count(&format!("mock-run-failed:{}", other.is_ok()));
+            return;
+        }
+    };
+    let verdict = mzkh::catch(|| mp.verify());
+    let (mock_ok, gt, lk, cp) = match &verdict {
+        Ok(Ok(())) => (true, true, true, true),
+        Ok(Err(errs)) => {
+            let gt = !errs.iter().any(|e| {
+                matches!(e, VerifyFailure::ConstraintNotSatisfied { .. } | VerifyFailure::ConstraintPoisoned { .. })
+            });
+            let lk = !errs.iter().any(|e| matches!(e, VerifyFailure::Lookup { .. }));
+            let cp = !errs.iter().any(|e| matches!(e, VerifyFailure::Permutation { .. }));
+            let other = errs.iter().any(|e| {
+                matches!(e, VerifyFailure::CellNotAssigned { .. } | VerifyFailure::InstanceCellNotAssigned { .. })
+            });
+            if other {
+                ctx.count("mock-cell-not-assigned");
+                return;
+            }
+            (false, gt, lk, cp)
+        }
+        Err(p) => {
+            ctx.oracle_fail("mock-panic", "MockProver::verify panicked", json!({"case": desc, "panic": p}));
+            return;
+        }
+    };
+    let real = match real_verdict(m, circuit, insts, seed) {
+        Ok(b) => b,
+        Err(e) => {
+            ctx.oracle_fail(&format!("real-panic:{label}"), "prover/verifier panicked on a faulted witness", json!({"case": desc, "panic": e}));
+            return;
+        }
+    };
+    let n = 1usize << m.k;
+    let ch = mock_challenges(m.n_challenges);
+    let ch_s = if ch.is_empty() { "-".to_string() } else { ch.iter().map(|c| mzkh::fe_hex(c)[2..].to_string()).collect::<Vec<_>>().join(",") };
+    let op = format!(
+        "sat p=73eda753299d7d483339d80809a1d80553bda402fffe5bfeffffffff00000001 ch={} {} {}",
+        ch_s,
+        m.cs_line,
+        table_string(&mp, n)
+    );
+    let b = |x: bool| if x { "1" } else { "0" };
+    let ans = format!("rowSat={} mock={} gt={} lookups={} copies={}", b(real), b(mock_ok), b(gt), b(lk), b(cp));
+    ctx.case(label, nontrivial, &op, &ans);
+    ctx.count(&format!("verdict:{}", if mock_ok { "accept" } else { "reject" }));
+    if !gt {
+        ctx.count("rejected-by:gate-or-trash");
+    }
+    if !lk {
+        ctx.count("rejected-by:lookup");
+    }
+    if !cp {
+        ctx.count("rejected-by:copy");
+    }
+    if real != mock_ok {
+        let key = if mock_ok { "mock-accepts:verifier-rejects" } else { "mock-rejects:verifier-accepts" };
+        ctx.oracle_fail(
+            &format!("{key}:{label}"),
+            "verifier verdict differs from the mock checker's verdict on the same assignment",
+            json!({"case": desc, "real": real, "mock": mock_ok}),
+        );
+    }
+}
+
+fn run_member(ctx: &mut Ctx, fp: &FamParams, seed: u64, max_faults: usize) {
+    let m = setup_member(fp, seed);
+    let base = FamCircuit::new(fp.clone(), seed);
+    let insts = base.instances();
+    let desc0 = json!({"params": format!("{fp:?}"), "seed": seed, "k": m.k});
+    one_case(ctx, &m, "honest", &base, &insts, true, seed, desc0.clone());
+    // number of advice assignments
+    let _ = MockProver::run(m.k, &base, insts.clone());
+    let cells = base.cell_count.load(std::sync::atomic::Ordering::SeqCst);
+    let mut rng = ctx.rng(&format!("faults{seed}"));
+    let kinds = [FaultKind::PlusOne, FaultKind::Zero, FaultKind::Neighbour, FaultKind::Random];
+    let mut picks: Vec<(usize, FaultKind)> = (0..cells).flat_map(|i| kinds.iter().map(move |k| (i, *k))).collect();
+    // deterministic shuffle, then truncate
+    for i in (1..picks.len()).rev() {
+        let j = rng.gen_range(0..=i);
+        picks.swap(i, j);
+    }
+    picks.truncate(max_faults);
+    for (idx, kind) in picks {
+        let mut c = base.clone();
+        c.fault = Some((idx, kind));
+        let mut d = desc0.clone();
+        d["fault"] = json!({"cell": idx, "kind": format!("{kind:?}")});
+        one_case(ctx, &m, &format!("fault-{kind:?}"), &c, &insts, true, seed, d);
+    }
+    // public-input faults: one value of each instance column
+    for col in 0..insts.len() {
+        let mut bad = insts.clone();
+        bad[col][0] += F::ONE;
+        let mut d = desc0.clone();
+        d["fault"] = json!({"instance_col": col, "row": 0, "kind": "PlusOne"});
+        one_case(ctx, &m, "fault-instance", &base, &bad, true, seed, d);
+    }
+}
 
 fn main() {
-    let ctx = Ctx::from_args("C02");
+    let mut ctx = Ctx::from_args("C02");
+    let mut rng = ctx.rng("family");
+    let (n_members, per_member) = match ctx.tier.as_str() {
+        "quick" => (10, 24),
+        "thorough" => (40, 60),
+        _ => (16, 40),
+    };
+    // corpus first: a member with an additive-selector gate (defect D2), one with every class
+    let d2 = FamParams { gates: vec![GateKind::Additive], steps: 3, ..FamParams::default() };
+    run_member(&mut ctx, &d2, 21, per_member);
+    let every = FamParams {
+        n_adv0: 4,
+        n_adv1: 1,
+        unblinded: true,
+        n_committed: 1,
+        n_plain: 1,
+        gates: vec![GateKind::Mul, GateKind::LinRot, GateKind::Pow(4), GateKind::Additive, GateKind::Complex, GateKind::Chal],
+        lookups: vec![LookupKind::Range, LookupKind::Pair, LookupKind::AnyInstance],
+        copies: true,
+        const_copies: true,
+        inst_copies: true,
+        steps: 9,
+        table_bits: 3,
+    };
+    run_member(&mut ctx, &every, 22, per_member * 2);
+    for i in 0..n_members {
+        let fp = sample_params(&mut rng);
+        run_member(&mut ctx, &fp, 2000 + i as u64, per_member);
+    }
     ctx.finish();
 }
